@@ -12,7 +12,7 @@ PY = "/venv/bin/python"
 FEATURES = ["custom_lro", "server_stream", "bidi_stream", "client_stream", "scalars", "single_enum", "nested", "recursive_optional",
             "map_field", "oneof_flat", "proto3_optional", "reserved_field", "required_scalars_query", "required_message_query",
             "uuid4", "routing", "additional_bindings", "multi_seg_var", "two_path_vars", "int_path_var", "body_star", "paged_wrapper",
-            "paged_scalar", "paged_map", "delete_void", "keyword_rpc", "second_service", "resource_second"]
+            "paged_scalar", "paged_map", "delete_void", "keyword_rpc", "second_service", "resource_second", "repeated_scalars"]
 
 
 def gen_case(r: apigen.Rng):
@@ -42,6 +42,10 @@ def build(case):
     if "scalars" in F:
         for i, t in enumerate(["double", "float", "int64", "uint64", "fixed64", "fixed32", "bool", "bytes", "uint32", "sfixed32", "sfixed64", "sint32", "sint64"]):
             book.field(f"f_{t}", t)
+    if "repeated_scalars" in F:      # repeated fields of every scalar kind (and of the enum) at the top level of the resource/response message
+        for t in ["double", "float", "int64", "uint64", "int32", "fixed64", "fixed32", "bool", "string", "bytes", "uint32", "sfixed32", "sfixed64", "sint32", "sint64"]:
+            book.field(f"r_{t}", t, repeated=True)
+        book.field("r_genre", "enum", repeated=True, type_name=genre)
     if "single_enum" in F:
         only = f.enum("Only", ["ONLY_UNSPECIFIED"]); book.field("only", "enum", type_name=only)
     if "nested" in F:
